@@ -8,16 +8,20 @@ package consul
 //@ file acl.go
 
 // Identity and policy lookups go through caches, the state store and (in secondaries) RPCs; their effects are
-// outside the verified subset. ASSUMED contracts (empty: any result), listed as trusted in the evidence.
+// outside the verified subset. ASSUMED contracts (any result; ASSUMED frame: they fill caches and metrics only and
+// never modify a token, identity, policy or role object that already exists), listed as trusted in the evidence.
 //@ func ACLResolver.resolveIdentityFromToken
 //@ trusted
 //@ results id, err
+//@ modifies nothing
 //@ func ACLResolver.resolvePoliciesForIdentity
 //@ trusted
 //@ results ps, err
+//@ modifies nothing
 //@ func ACLResolver.resolveRolesForIdentity
 //@ trusted
 //@ results rs, err
+//@ modifies nothing
 
 // An identity is handed out only after IsExpired was evaluated on that very identity, with a clock value read
 // in the same iteration, and was false - so a cached token is re-checked at every resolution.
@@ -39,9 +43,11 @@ package consul
 
 // SignCertificate talks to the CA provider (X.509, rate limiters, raft): outside the verified subset. ASSUMED
 // contract: arbitrary result. What is proved below is the gate in front of it.
+// (ASSUMED frame: it does not modify the CSR, the parsed identity or the manager's configuration)
 //@ func CAManager.SignCertificate
 //@ trusted
 //@ results issued, signErr
+//@ modifies nothing
 
 //@ func CAManager.AuthorizeAndSignCertificate
 //@ props C12
